@@ -155,6 +155,13 @@ def resolve_reference(base, reference):
     'coap://node/fw//status'
     >>> resolve_reference("coap://node/dev?x=1", "?")
     'coap://node/dev?'
+
+    Where removing dot segments leaves a path that starts with two slashes but
+    there is no authority, a dot segment is kept in front of it: Otherwise, the
+    first path segment would become the authority when the result is used.
+
+    >>> resolve_reference("foo:/a/", "..//x")
+    'foo:/.//x'
     """
     urlsplit(base)
     urlsplit(reference)
@@ -190,6 +197,8 @@ def resolve_reference(base, reference):
         result += scheme + ":"
     if authority is not None:
         result += "//" + authority
+    elif path.startswith("//"):
+        result += "/."
     result += path
     if query is not None:
         result += "?" + query
